@@ -72,16 +72,22 @@ func tryFindFirstCharClass(node *RegexNode, ccIn **CharSet) int {
 			*ccIn = cc
 		}
 		if cc.IsMergeable() {
-			cc.addChar(node.Ch)
-			cc.negate = true
-			/*if node.Ch > 0 {
-				// Add the range before the excluded char.
-				cc.addRange(0, (node.Ch - 1))
+			if len(cc.ranges) == 0 && len(cc.categories) == 0 {
+				// nothing collected yet: keep the compact negated form
+				cc.addChar(node.Ch)
+				cc.negate = true
+			} else {
+				// earlier optional nodes already contributed characters, so
+				// union with everything but the excluded char
+				if node.Ch > 0 {
+					// Add the range before the excluded char.
+					cc.addRange(0, (node.Ch - 1))
+				}
+				if node.Ch < unicode.MaxRune {
+					// Add the range after the excluded char.
+					cc.addRange(node.Ch+1, unicode.MaxRune)
+				}
 			}
-			if node.Ch < unicode.MaxRune {
-				// Add the range after the excluded char.
-				cc.addRange(node.Ch+1, unicode.MaxRune)
-			}*/
 			if node.T == NtNotone || node.M > 0 {
 				return 1
 			}
